@@ -443,6 +443,9 @@ package dnsmsg
 //@        && ((bits & 0x0010) != 0) == m.CheckingDisabled && (bits & 0x0040) == 0
 //@   ensures [C02:roundtrip] uint16(m.OpCode) < 16 && uint16(m.RCode) < 16 ==> OpCode(bits>>11) & 0xF == m.OpCode && RCode(bits & 0xF) == m.RCode
 
+// every question and record object in the message was allocated during this call
+//@ spec func freshElems(m *Msg) bool = forall(k, 0, len(m.Questions), fresh(m.Questions[k])) && forall(k, 0, len(m.Answers), fresh(m.Answers[k]))
+//@        && forall(k, 0, len(m.Authorities), fresh(m.Authorities[k])) && forall(k, 0, len(m.Additionals), fresh(m.Additionals[k]))
 //@ func (m *Msg) Unpack(msg []byte) (err error)
 //@   props C01 C02
 //@   requires m != nil && len(m.Questions) == 0 && len(m.Answers) == 0 && len(m.Authorities) == 0 && len(m.Additionals) == 0 && distinctSecs(m)
@@ -451,6 +454,9 @@ package dnsmsg
 //@             && m.Truncated == ((BE16(msg, 2) & 0x0200) != 0) && m.RecursionDesired == ((BE16(msg, 2) & 0x0100) != 0)
 //@             && m.RCode == RCode(BE16(msg, 2) & 0xF) && m.OpCode == OpCode(BE16(msg, 2) >> 11) & 0xF
 //@   ensures wfMsg(m)
+//@   ensures [C20:everything-it-adds-is-new] freshElems(m)
+//@   ensures [C20:arrays-kept-or-new] (m.Questions == nil || sameObj(m.Questions, old(m.Questions)) || fresh(m.Questions)) && (m.Answers == nil || sameObj(m.Answers, old(m.Answers)) || fresh(m.Answers))
+//@             && (m.Authorities == nil || sameObj(m.Authorities, old(m.Authorities)) || fresh(m.Authorities)) && (m.Additionals == nil || sameObj(m.Additionals, old(m.Additionals)) || fresh(m.Additionals))
 //@   ensures [C02:counts] err == nil ==> len(m.Questions) == int(BE16(msg, 4)) && len(m.Answers) == int(BE16(msg, 6))
 //@             && len(m.Authorities) == int(BE16(msg, 8)) && len(m.Additionals) == int(BE16(msg, 10))
 //@   loop 1:
@@ -458,24 +464,28 @@ package dnsmsg
 //@     invariant 12 <= off && off <= len(msg) && 0 <= i && i <= int(h.questions) && len(m.Questions) == i
 //@     invariant sameObj(m.Questions, old(m.Questions)) || loopFresh(m.Questions)
 //@     invariant forall(k, 0, len(m.Questions), m.Questions[k] != nil)
+//@     invariant forall(k, 0, len(m.Questions), fresh(m.Questions[k]))
 //@     decreases int(h.questions) - i
 //@   loop 2:
 //@     modifies m.Answers, obj(m.Answers)
 //@     invariant 12 <= off && off <= len(msg) && 0 <= i_2 && i_2 <= int(h.answers) && len(m.Answers) == i_2
 //@     invariant sameObj(m.Answers, old(m.Answers)) || loopFresh(m.Answers)
 //@     invariant forall(k, 0, len(m.Questions), m.Questions[k] != nil) && wfRecs(m.Answers)
+//@     invariant forall(k, 0, len(m.Questions), fresh(m.Questions[k])) && forall(k, 0, len(m.Answers), fresh(m.Answers[k]))
 //@     decreases int(h.answers) - i_2
 //@   loop 3:
 //@     modifies m.Authorities, obj(m.Authorities)
 //@     invariant 12 <= off && off <= len(msg) && 0 <= i_3 && i_3 <= int(h.authorities) && len(m.Authorities) == i_3
 //@     invariant sameObj(m.Authorities, old(m.Authorities)) || loopFresh(m.Authorities)
 //@     invariant forall(k, 0, len(m.Questions), m.Questions[k] != nil) && wfRecs(m.Answers) && wfRecs(m.Authorities)
+//@     invariant forall(k, 0, len(m.Questions), fresh(m.Questions[k])) && forall(k, 0, len(m.Answers), fresh(m.Answers[k])) && forall(k, 0, len(m.Authorities), fresh(m.Authorities[k]))
 //@     decreases int(h.authorities) - i_3
 //@   loop 4:
 //@     modifies m.Additionals, obj(m.Additionals)
 //@     invariant 12 <= off && off <= len(msg) && 0 <= i_4 && i_4 <= int(h.additionals) && len(m.Additionals) == i_4
 //@     invariant sameObj(m.Additionals, old(m.Additionals)) || loopFresh(m.Additionals)
 //@     invariant wfMsg(m)
+//@     invariant freshElems(m)
 //@     decreases int(h.additionals) - i_4
 
 //@ func ReleaseMsg(m *Msg)
@@ -511,8 +521,8 @@ package dnsmsg
 
 //@ func UnpackMsg(msg []byte) (m *Msg, err error)
 //@   props C01 C02 C20
-//@   modifies pkgheaps(dnsmsg), bytes()
-//@   ensures err == nil ==> m != nil && fresh(m) && wfMsg(m)
+//@   modifies nothing
+//@   ensures err == nil ==> m != nil && fresh(m) && wfMsg(m) && freshElems(m)
 //@   ensures err != nil ==> m == nil
 //@   ensures [C02:header] err == nil ==> len(msg) >= 12 && m.ID == BE16(msg, 0) && m.Response == ((BE16(msg, 2) & 0x8000) != 0)
 //@             && m.Truncated == ((BE16(msg, 2) & 0x0200) != 0) && m.RecursionDesired == ((BE16(msg, 2) & 0x0100) != 0)
@@ -769,6 +779,7 @@ package dnsmsg
 //@   ensures [C09:opt-kept] err == nil && final(edns0Opt) != nil ==> len(m.Additionals) >= 1 && m.Additionals[len(m.Additionals)-1] == final(edns0Opt) && isOPT(final(edns0Opt))
 //@   ensures [C02:no-reorder] size <= 0 ==> m.Additionals == old(m.Additionals)
 //@   ensures [C02:no-reorder-elements] size <= 0 ==> forall(k, 0, len(m.Additionals), m.Additionals[k] == old(m.Additionals[k]))
+//@   ensures [C02:untouched-when-unlimited] size <= 0 ==> objKept(m.Additionals)
 //@   ensures [C20:own-array-kept] m.Additionals == nil || sameObj(m.Additionals, old(m.Additionals)) || fresh(m.Additionals)
 //@   ensures wfMsg(m)
 //@   loop 1:
